@@ -19,15 +19,15 @@ CLAIMED = {
              "Fault-free drivers only (faults are C13)."),
     "C03": C("proptest: generated output layouts and value histories vs the driver's own record + 3x3 verdict table",
              "Every checked row's outputs compared with what the recording driver returned for that signal in that call, for any subset/permutation layout and Z/X/boundary values; check()/is_checked()/failing_outputs() against an independent table."),
-    "C05": C("proptest: generated row shapes vs reference expansion, checked on rows and on the driver call log",
-             "Rows with 0-3 C and 0-5 X at any position and loop depth; reference expansion order against the row stream and the call log (method and vector).",
+    "C05": C("proptest: tagged rows; expansion structure checked per evaluation from the row's known shape (self-consistency, no reference values), incl. driver call log",
+             "Each evaluation of a source row must yield 2^k assignments (leftmost X fastest, 0 first) x (one checked item | 0-1-0 triple with only the third checked and read); other inputs and all expected values held; literal expected X/Z passed through; exactly one call per item, right method, vector verbatim.",
              "Columns bound both to an input and to an expected signal never hold X or C (statement contradicts itself there)."),
     "C07": C("exhaustive sweep widths 1..=64 x 40 boundary values x 3 delivery paths, plus proptest random (width, value) pairs; closed-form oracle",
              "value & (2^w-1) computed in u64 against the input as received by the driver, row.inputs and expected values on input, output, bidirectional and virtual columns."),
     "C08": C("proptest: generated expression trees printed with minimal/redundant parentheses vs independent evaluator",
              "Expression trees (depth <= 6, all operators, every radix, 64-bit boundary operands, boundary shift counts, hazards in unselected ite branches) evaluated by an independent evaluator and compared with the untruncated expected value of a 64-bit column."),
-    "C04": C("proptest: generated feedback programs and device histories vs reference interpreter",
-             "Programs that read outputs anywhere an expression may appear, against device answers that change on every call (Z/X sometimes, read signal omitted sometimes), compared with the reference interpreter; constructor refusal and Z/X error items checked."),
+    "C04": C("proptest: tagged rows with device-read probes; oracle = the recording driver's own log (self-consistency, no reference values)",
+             "Every item's probe `(Q)` must show the value the driver returned for Q in the latest call made for a checked item (or by the constructor) before the source row was evaluated; Z/X there => error item; a shadowing variable wins (vs vars()); an omitted read signal => constructor error after exactly one call."),
     "C06": C("proptest: generated signal lists x headers (subset, permutation, split pairs) vs closed-form binding oracle",
              "Every row's inputs/outputs compared entry by entry with closed formulas (list order, by-name binding, defaults, X for omitted expected); changed-flag implication checked against the driver log."),
     "C09": C("proptest token soup + mutated valid programs; libFuzzer target parse_bytes in the thorough tier; totality + span-validity oracle",
